@@ -260,7 +260,7 @@ fn exec(tc: &TransferControl, op: &Op, taglen: usize) -> Result<(), (&'static st
 
 struct Graph {
     init: Vec<usize>,
-    states: Vec<Value>,
+    states: Vec<String>, // compact JSON of each state (parsed on demand: the thorough graph has millions of states)
     projs: Vec<Proj>,
     edges: Vec<Vec<(usize, usize)>>, // (label id, to)
     labels: Vec<Value>,
@@ -276,20 +276,19 @@ fn load_graph(path: &str) -> Graph {
         if let Some(i) = ids.get(&k) {
             return *i;
         }
-        let i = g.states.len();
-        g.states.push(s.clone());
+        let i = g.projs.len();
         g.projs.push(proj_of(s));
         g.edges.push(vec![]);
         ids.insert(k, i);
         i
     }
-    for v in util::tlc_tagged_json(path, "INIT") {
+    util::tlc_tagged_json_each(path, "INIT", |v| {
         let i = sid(&mut g, &mut ids, &v);
         if !g.init.contains(&i) {
             g.init.push(i);
         }
-    }
-    for v in util::tlc_tagged_json(path, "EDGE") {
+    });
+    util::tlc_tagged_json_each(path, "EDGE", |v| {
         let a = v.as_array().expect("edge triple");
         let f = sid(&mut g, &mut ids, &a[0]);
         let t = sid(&mut g, &mut ids, &a[2]);
@@ -302,11 +301,14 @@ fn load_graph(path: &str) -> Graph {
         if !g.edges[f].contains(&(l, t)) {
             g.edges[f].push((l, t));
         }
-    }
+    });
+    g.states = vec![String::new(); g.projs.len()];
+    for (k, i) in ids { g.states[i] = k; }
     g
 }
 
-fn new_tc(state: &Value) -> Arc<TransferControl> {
+fn new_tc(state: &str) -> Arc<TransferControl> {
+    let state: Value = serde_json::from_str(state).unwrap();
     let a = state.as_array().unwrap();
     TransferControl::with_replay_capacity(a[0].as_u64().unwrap(), a[1].as_u64().unwrap())
 }
@@ -346,7 +348,7 @@ fn describe(g: &Graph, init: usize, path: &[(usize, usize)], step: usize, class:
     json!({
         "class": class,
         "op": path.get(step.min(path.len().saturating_sub(1))).map(|(l, _)| g.labels[*l]["op"].clone()),
-        "init": g.states[init],
+        "init": serde_json::from_str::<Value>(&g.states[init]).unwrap_or(Value::Null),
         "path": path.iter().map(|(l, _)| g.labels[*l].clone()).collect::<Vec<_>>(),
         "failed_step": step,
         "what": what,
